@@ -23,6 +23,7 @@ Inductive kind := KWire | KRt.
 
 Record recobs := mkRec {
   rtype : N; rttl : N; rprio : N; rtarget : bytes;   (* fields of the H / B line *)
+  rwild : bool;                                       (* owner written as *.example.com *)
   rerr : bool;                                        (* ConvertLn returned an error *)
   rrow : bytes }.                                     (* value of the single row *)
 
@@ -59,7 +60,7 @@ Definition rec_model_ok (c : case) (r : result (list param)) : bool :=
     match r with
     | Err _ => rerr o
     | Ok l => negb (rerr o)
-              && bytes_eqb (svcb_row (rtype o) (rttl o) (rprio o) false (rtarget o) l) (rrow o)
+              && bytes_eqb (svcb_row (rtype o) (rttl o) (rprio o) (rwild o) (rtarget o) l) (rrow o)
     end
   end.
 
